@@ -373,31 +373,154 @@ def stream_random(ck, count, nlo, nhi):
                              "model and implementation differ on vector %s (%s, up_then_down=%s): implementation %s, "
                              "model %s" % (v, m, utd, impl, ms), dict(case, impl=impl, model=ms), found_input=False)
 
+# ------------------------------------------------------------------------------------------ operands and histories
+FORMS = ["int64", "int32", "bool", "float", "list", "tuple"]
 
-def stream_inputs(ck):
-    """input forms other than an int array: lists, bool / float arrays (entries 0/1), Gate-level checks"""
+
+def make_form(v, form):
     import numpy as np
+    if form == "list":
+        return list(v)
+    if form == "tuple":
+        return tuple(v)
+    return np.array(v, dtype={"int64": np.int64, "int32": np.int32, "bool": bool, "float": float}[form])
+
+
+def snapshot(x):
+    """(type name, dtype, values) of an operand"""
+    import numpy as np
+    if isinstance(x, np.ndarray):
+        return ("ndarray", str(x.dtype), [float(e) for e in x.tolist()])
+    return (type(x).__name__, "", [float(e) for e in x])
+
+
+def operand_check(v, form, m, utd):
+    """the caller's vector is unchanged by get_mapped_vector and by vector_to_circuit, the result equals the one
+    obtained from a fresh int array.  Returns (kind, description) or None."""
     from tangelo.toolboxes.qubit_mappings.statevector_mapping import get_mapped_vector, vector_to_circuit
-    st = "input-forms"
-    ck.stream(st, "the same occupation vector given as a Python list, an int / float / bool numpy array gives the same "
-              "mapped vector and circuit (implementation only)")
-    for v in ([1, 0, 1, 0], [1, 1, 0, 0, 0, 1], [0, 1, 1, 1, 0, 0, 1, 0]):
-        for m in MAPPINGS:
-            for utd in (False, True):
-                ref = impl_mapped(v, m, utd)
-                forms = {"list": list(v), "float": np.array(v, dtype=float), "bool": np.array(v, dtype=bool)}
-                for name, x in forms.items():
-                    try:
-                        got = show_impl_vec(get_mapped_vector(x, m, utd))
-                    except Exception as e:
-                        got = err_name(e)
-                    ck.case(st, json.dumps([v, m, utd, name]), nontrivial=True, tags=[name, m])
-                    if got != ref:
-                        ck.violation("C05/%s/input-form/%s" % (m, name),
-                                     "get_mapped_vector(%s as %s, %r, up_then_down=%s) gives %s, the int array gives %s"
-                                     % (v, name, m, utd, got, ref),
-                                     {"kind": "input-form", "vector": v, "mapping": m, "up_then_down": utd, "form": name},
-                                     found_input=True)
+    ref = impl_mapped(v, m, utd)
+    x = make_form(v, form)
+    before = snapshot(x)
+    try:
+        r = get_mapped_vector(x, m, utd)
+        got = show_impl_vec(r)
+    except Exception as e:
+        r, got = None, err_name(e)
+    if snapshot(x) != before:
+        return "operand-mutated", "get_mapped_vector(%s as %s, %r, up_then_down=%s) changed the caller's vector to %s" % (
+            v, form, m, utd, snapshot(x)[2])
+    if got != ref:
+        return "input-form", "get_mapped_vector(%s as %s, %r, up_then_down=%s) gives %s, a fresh int array gives %s" % (
+            v, form, m, utd, got, ref)
+    y = make_form(v, form)
+    before = snapshot(y)
+    try:
+        vector_to_circuit(y)
+    except Exception as e:
+        return "input-form", "vector_to_circuit(%s as %s) raised %s" % (v, form, type(e).__name__)
+    if snapshot(y) != before:
+        return "operand-mutated", "vector_to_circuit(%s as %s) changed the caller's vector to %s" % (v, form, snapshot(y)[2])
+    if r is not None:
+        keep = snapshot(r)
+        try:
+            vector_to_circuit(r)
+        except Exception as e:
+            return "input-form", "vector_to_circuit(result) raised %s" % type(e).__name__
+        if snapshot(r) != keep:
+            return "operand-mutated", "vector_to_circuit changed the mapped vector it was given"
+    return None
+
+
+def stream_inputs(ck, nmax):
+    st = "operands"
+    ck.stream(st, "operand snapshots (implementation only): every 0/1 vector of length 1..%d given as int64 / int32 / bool / "
+              "float ndarray, list, tuple, all four mappings, both orderings: the caller's object is unchanged (type, dtype, "
+              "values) after get_mapped_vector and after vector_to_circuit, and the result equals the one from a fresh int "
+              "array; get_vector / get_reference_circuit take integers only (no vector operand); non-trivial = 0 < electrons "
+              "< n" % nmax)
+    for n in range(1, nmax + 1):
+        for i in range(2 ** n):
+            v = [(i >> k) & 1 for k in range(n)]
+            for m in MAPPINGS:
+                for utd in (False, True):
+                    for form in FORMS:
+                        bad = operand_check(v, form, m, utd)
+                        ck.case(st, json.dumps([v, m, utd, form]), nontrivial=0 < sum(v) < n, tags=[form, m, "utd" if utd else "alt"])
+                        if bad:
+                            ck.violation("C05/%s/%s/%s/%s" % (m, bad[0], form, "utd" if utd else "alt"), bad[1],
+                                         {"kind": "input-form", "vector": v, "mapping": m, "up_then_down": utd, "form": form},
+                                         found_input=True)
+
+
+def run_history(v, form, steps):
+    """the SAME object encoded several times: [(impl string, oracle finding)] per step, judged against the vector the
+    user built the object from"""
+    from tangelo.toolboxes.qubit_mappings.statevector_mapping import get_mapped_vector, vector_to_circuit
+    x = make_form(v, form)
+    n = len(v)
+    ne, spin = sum(v), sum(v[0::2]) - sum(v[1::2])
+    out = []
+    for m, utd in steps:
+        try:
+            r = get_mapped_vector(x, m, utd)
+            impl = show_impl_vec(r)
+            found = oracle_occupations(m, n, utd, ne, spin, vector_to_circuit(r), v) if n % 2 == 0 and n >= 2 else None
+        except Exception as e:
+            impl, found = err_name(e), ("exception %s: %s" % (type(e).__name__, str(e)[:120]) if n % 2 == 0 and n >= 2 else None)
+        out.append((impl, found))
+    return out
+
+
+def stream_histories(ck, count, nlo, nhi):
+    st = "histories"
+    ck.stream(st, "the SAME operand object (int64 / int32 / bool / float ndarray, list, tuple) encoded 2-5 times in sequence "
+              "with random mappings and orderings (a user comparing encodings, two solvers built from one ref_state): every "
+              "result equals the model's for the vector the object was built from, and the number-operator expectations in "
+              "each prepared state equal that vector (even lengths); lengths %d..%d; non-trivial = 0 < electrons < n and a "
+              "vector not invariant under the spin re-ordering" % (nlo, nhi))
+    rng = ck.rng
+    hist = []
+    for k in range(count):
+        n = rng.randint(nlo, nhi)
+        if k % 3:
+            n += n % 2                      # mostly even lengths (the oracle applies there)
+        v = [rng.randint(0, 1) for _ in range(n)]
+        form = FORMS[k % len(FORMS)] if k % 2 else "int64"
+        steps = [(rng.choice(MAPPINGS), rng.random() < 0.6) for _ in range(rng.randint(2, 5))]
+        hist.append((v, form, steps))
+    groups = {}
+    for hi, (v, form, steps) in enumerate(hist):
+        for si, (m, utd) in enumerate(steps):
+            groups.setdefault((m, utd), []).append((hi, si, v))
+    exprs, index = [], []
+    for (m, utd), items in groups.items():
+        for i in range(0, len(items), 25):
+            part = items[i:i + 25]
+            exprs.append("mapped_list jkmn_tab_gen %s %s %s" % (COQ_MAP[m], coq_bool(utd), coq_list([coq_vec(v) for _, _, v in part])))
+            index.append(part)
+    model = safe_eval(ck, "histories", exprs, 6) or [None] * len(index)
+    expect = {}
+    for part, out in zip(index, model):
+        for (hi, si, _), ms in zip(part, split_batch(out, len(part))):
+            expect[(hi, si)] = ms
+    for hi, (v, form, steps) in enumerate(hist):
+        res = run_history(v, form, steps)
+        n = len(v)
+        utdv = v[0::2] + v[1::2]
+        case = {"kind": "history", "vector": v, "form": form, "steps": [[m, utd] for m, utd in steps]}
+        ck.case(st, json.dumps(case), nontrivial=0 < sum(v) < n and utdv != v,
+                sample=dict(case, impl=[r[0] for r in res]), tags=[form, "len=%d" % len(steps), "n=%d" % n])
+        for si, ((m, utd), (impl, found)) in enumerate(zip(steps, res)):
+            ms = expect.get((hi, si))
+            if found or (ms is not None and impl != ms):
+                first = si == 0
+                desc = ("one %s operand %s encoded in sequence %s: step %d (%s, up_then_down=%s) gives %s%s%s" % (
+                    form, v, case["steps"], si, m, utd, impl,
+                    "; " + found if found else "", "; model %s" % ms if ms is not None and impl != ms else ""))
+                ck.violation("C05/%s/%s/%s/history-%s" % (m, "occupation" if found else "correspondence", "utd" if utd else "alt",
+                                                          "first-use" if first else "reused-operand"),
+                             desc, dict(case, step=si, model=ms), found_input=bool(found) or not first)
+                break
 
 
 # ------------------------------------------------------------------------------------------ main
@@ -464,7 +587,8 @@ def run(ck):
     guarded("vectors-exhaustive", stream_vectors, 6 if quick else 10)
     guarded("fillings", stream_fillings, 10 if quick else 16)
     guarded("vectors-random", stream_random, 120 if quick else 1500, 7 if quick else 11, 12 if quick else 20)
-    guarded("input-forms", stream_inputs)
+    guarded("operands", stream_inputs, 6 if quick else 7)
+    guarded("histories", stream_histories, 150 if quick else 1200, 3, 8 if quick else 12)
     ck.notes["exhaustive"] = True
     ck.notes["exhaustive_domain"] = ("all 0/1 vectors of length <= %d and all (n_electrons, spin) grids for n <= %d, 4 "
                                      "mappings, 2 orderings" % (6 if quick else 10, 10 if quick else 16))
@@ -506,14 +630,18 @@ def replay(data, quiet=False):
         out("occupation oracle:", found)
         return 1 if found or (r.get("model") is not None and r.get("model") != impl) else 0
     if r.get("kind") == "input-form":
-        v, m, utd = r["vector"], r["mapping"], r["up_then_down"]
-        x = {"list": list(v), "float": np.array(v, dtype=float), "bool": np.array(v, dtype=bool)}[r["form"]]
-        try:
-            got = show_impl_vec(get_mapped_vector(x, m, utd))
-        except Exception as e:
-            got = err_name(e)
-        ref = impl_mapped(v, m, utd)
-        out(r["form"], "->", got, "; int array ->", ref)
-        return 1 if got != ref else 0
+        bad = operand_check(r["vector"], r["form"], r["mapping"], r["up_then_down"])
+        out("operand check:", bad)
+        return 1 if bad else 0
+    if r.get("kind") == "history":
+        steps = [(m, utd) for m, utd in r["steps"]]
+        res = run_history(r["vector"], r["form"], steps)
+        bad = 0
+        for si, ((m, utd), (impl, found)) in enumerate(zip(steps, res)):
+            fresh = impl_mapped(r["vector"], m, utd)
+            out("step %d %s up_then_down=%s: %s (fresh copy of the vector: %s) oracle: %s" % (si, m, utd, impl, fresh, found))
+            if found or impl != fresh:
+                bad = 1
+        return bad
     out(json.dumps(r, indent=1)[:4000])
     return 1
